@@ -164,10 +164,32 @@ def main():
 
     exit_code = 0
     nviol = 0
-    for v in new_violations[:5]:
-        path = write_replay(prop_id, {"violation": v.to_json(), "broken": broken, "seed": seed, "tier": tier})
+    # every reported input is re-run in a FRESH interpreter (./check --replay): a failure that only shows up after
+    # other cases have run in the same process (a cache, a class attribute, a module-level table left behind) is still
+    # reported, but flagged, and inputs that reproduce on their own are listed first
+    confirmed = []
+    for v in new_violations[:6]:
+        payload = {"violation": v.to_json(), "broken": broken, "seed": seed, "tier": tier}
+        path = write_replay(prop_id, payload)
+        try:
+            import subprocess
+            r = subprocess.run([sys.executable, os.path.abspath(__file__), prop_id, "--replay", path],
+                               stdout=subprocess.PIPE, stderr=subprocess.STDOUT, text=True, timeout=600,
+                               env=dict(os.environ))
+            fresh = r.returncode == 1
+        except Exception:
+            fresh = None
+        payload["reproduces_in_fresh_process"] = fresh
+        with open(path, "w") as f:
+            json.dump(payload, f, indent=1, sort_keys=True, default=str)
+        confirmed.append((0 if fresh else 1, v, path, fresh))
+    confirmed.sort(key=lambda t: t[0])
+    for _, v, path, fresh in confirmed[:5]:
         print("VIOLATION property={} replay={}".format(prop_id, path))
         print("  " + v.what[:300])
+        if fresh is False:
+            print("  (note: this input fails after the cases that ran before it in this process, not on its own in a fresh "
+                  "interpreter: the failure depends on state the library keeps between calls)")
         exit_code = 1
         nviol += 1
     # a broken obligation that is fully explained by known findings is not reported again
